@@ -99,6 +99,23 @@ func c06Run(c *vf.Case, msgs []wsMsg, events []wsEvent, wire []byte, cuts []int,
 					err = er
 					got = append(websocket.Frame(nil), f...)
 				})
+				if t.Pump() == 0 && calls == 0 && c.Rng.Chance(1, 5) {
+					// the read is parked on the transport (possibly in the middle of this frame) and is cancelled; the
+					// application reads again: the bytes received so far still count
+					t.Cancel()
+					t.Pump()
+					if calls != 1 || err == nil {
+						fail("cancelled-read-callback", "frame %d: the parked read was cancelled: callback invoked %d times, err=%v", i, calls, err)
+						return
+					}
+					c.Count("parked_frame_reads_cancelled_and_reissued", 1)
+					calls, err = 0, nil
+					s.AsyncNextFrame(func(er error, f websocket.Frame) {
+						calls++
+						err = er
+						got = append(websocket.Frame(nil), f...)
+					})
+				}
 				wait(&calls)
 				if calls != 1 {
 					fail("frame-callback-count", "callback for frame %d invoked %d times after all bytes were supplied", i, calls)
@@ -128,6 +145,72 @@ func c06Run(c *vf.Case, msgs []wsMsg, events []wsEvent, wire []byte, cuts []int,
 		if !async {
 			for feed() {
 			}
+		}
+		if async && c.Rng.Chance(1, 3) {
+			// every read is issued from inside the completion callback of the one before
+			c.Count("message_runs_rearmed_from_inside_the_callback", 1)
+			delivered, extra := 0, 0
+			fkey, fmsg := "", ""
+			var arm func(i int)
+			arm = func(i int) {
+				b := make([]byte, maxSize+16)
+				s.AsyncNextMessage(b, func(er error, nn int, mt websocket.MessageType) {
+					if fkey != "" {
+						return
+					}
+					if i >= len(msgs) {
+						extra++
+						return
+					}
+					m := msgs[i]
+					wantT := websocket.TypeBinary
+					if m.Text {
+						wantT = websocket.TypeText
+					}
+					switch {
+					case er != nil:
+						fkey, fmsg = "error-on-conforming-stream", fmt.Sprintf("message %d (%d bytes), read issued from inside the previous callback: %v", i, len(m.Payload), er)
+					case mt != wantT:
+						fkey, fmsg = "message-type-differs", fmt.Sprintf("message %d: type %v, sent %v (read issued from inside the previous callback)", i, mt, wantT)
+					case nn != len(m.Payload):
+						fkey, fmsg = "message-length-differs", fmt.Sprintf("message %d: reported length %d, payload has %d (read issued from inside the previous callback)", i, nn, len(m.Payload))
+					case !bytes.Equal(b[:nn], m.Payload):
+						fkey, fmsg = "message-payload-differs", fmt.Sprintf("message %d: payload differs at %d of %d (read issued from inside the previous callback)", i, firstDiff(b[:nn], m.Payload), nn)
+					}
+					if fkey != "" {
+						return
+					}
+					delivered++
+					c.Count("messages_delivered", 1)
+					arm(i + 1)
+				})
+			}
+			arm(0)
+			for guard := 0; fkey == "" && guard < 1<<22; guard++ {
+				if t.Pump() > 0 {
+					continue
+				}
+				if !feed() {
+					break
+				}
+			}
+			t.Pump()
+			if fkey != "" {
+				fail(fkey, "%s", fmsg)
+				return
+			}
+			if delivered != len(msgs) {
+				fail("message-callback-count", "%d of %d messages delivered after all bytes were supplied (reads issued from inside the callbacks)", delivered, len(msgs))
+				return
+			}
+			if extra != 0 {
+				fail("extra-message", "an extra message was delivered after the %d sent", len(msgs))
+				return
+			}
+			if len(gotCtl) != len(wantCtl) {
+				fail("control-callback-count", "%d control frames surfaced, %d sent (reads issued from inside the callbacks)", len(gotCtl), len(wantCtl))
+			}
+			return
 		}
 		buf := make([]byte, maxSize+16)
 		for i, m := range msgs {
@@ -385,7 +468,7 @@ func init() {
 		ID:        "C06",
 		Technique: "differential runtime monitor: a real Stream on a scripted transport (hook VerifAttach) reads wsref-generated fragmented/interleaved/segmented streams through all four read APIs; every delivery compared with the generated message list",
 		Rule: "a third of the cases read with ValidateUTF8(true) and carry text of 1-4 byte characters that the fragmentation splits anywhere; " +
-			"cases = 1-12 messages (text/binary, sizes {0,1,125,126,127,500,4090-4099,65535,65536,max,random<=max}) x random fragmentation (1-6 fragments, empty ones included) x ping/pong (0-125 bytes) between fragments x segmentation (EVERY cut offset for streams <= 400 bytes, else 1-3 random cuts plus one inside a header; coalesced; cut at every frame boundary; byte-at-a-time) x {NextFrame, AsyncNextFrame, NextMessage, AsyncNextMessage} x inline/deferred transport completions; SetMaxMessageSize raised at random points while an asynchronous read is parked; " +
+			"cases = 1-12 messages (text/binary, sizes {0,1,125,126,127,500,4090-4099,65535,65536,max,random<=max}) x random fragmentation (1-6 fragments, empty ones included) x ping/pong (0-125 bytes) between fragments x segmentation (EVERY cut offset for streams <= 400 bytes, else 1-3 random cuts plus one inside a header; coalesced; cut at every frame boundary; byte-at-a-time) x {NextFrame, AsyncNextFrame, NextMessage, AsyncNextMessage} x inline/deferred transport completions; SetMaxMessageSize raised at random points while an asynchronous read is parked; a third of the AsyncNextMessage runs issue every read from inside the completion callback of the one before; one parked AsyncNextFrame in five is cancelled (ErrCancelled) and issued again, the bytes received so far still counting; " +
 			"non-trivial = a control frame between fragments or a cut inside a frame header; distinct = (frame length classes, fragments, controls between fragments, segmentation class, max)",
 		Assumptions: []string{
 			"text payloads are ASCII (UTF-8 validation is optional and off by default)",
